@@ -24,6 +24,11 @@ type verifDesc struct {
 	repair     func(x interface{})
 	fillRandom func(x interface{}, rg *basictl.RandGenerator)
 	twin       func() interface{}
+	// functions: decode the result into the typed result, encode it in the target format
+	typedTL1toTL1  func(q interface{}, b []byte) ([]byte, []byte, error)
+	typedTL1toTL2  func(q interface{}, b []byte) ([]byte, []byte, error)
+	typedTL2toTL1  func(q interface{}, b []byte) ([]byte, []byte, error)
+	typedTL1toJSON func(q interface{}, b []byte) ([]byte, []byte, error)
 }
 
 type verifTL1 interface {
@@ -633,8 +638,11 @@ func verifH_C05(d *verifDesc) {
 // ---- an independent RFC 8259 recogniser (no jlexer, no encoding/json) ----
 
 type verifJP struct {
-	b []byte
-	i int
+	b    []byte
+	i    int
+	nums [][2]int // spans of number tokens (recorded for the rewrites of C06)
+	top  int      // offset just after the opening brace of the top-level object (0 if the value is not an object)
+	mem1 [2]int   // span of the first member (key:value) of the top-level object
 }
 
 func (p *verifJP) ws() {
@@ -817,7 +825,12 @@ func (p *verifJP) value(depth int) bool {
 	case c == 'n':
 		return p.lit("null")
 	default:
-		return p.num()
+		st := p.i
+		ok := p.num()
+		if ok {
+			p.nums = append(p.nums, [2]int{st, p.i})
+		}
+		return ok
 	}
 }
 
@@ -994,5 +1007,170 @@ func verifH_C09j(d *verifDesc) {
 	}
 	if d.hasTL2 {
 		verifAssert(verifBytesEq(dirty.(verifTL2).WriteTL2(nil, nil), fresh.(verifTL2).WriteTL2(nil, nil)), "json-reuse-same-tl2")
+	}
+}
+
+
+// ---- C07: function result transcoders ----
+
+type verifTransTL2 interface {
+	ReadResultTL1WriteResultTL2(tctx *basictl.TL2WriteContext, r []byte, w []byte) ([]byte, []byte, error)
+	ReadResultTL2WriteResultTL1(tctx *basictl.TL2ReadContext, r []byte, w []byte) ([]byte, []byte, error)
+}
+
+type verifTransJSON interface {
+	ReadResultTL1WriteResultJSON(jctx *basictl.JSONWriteContext, r []byte, w []byte) ([]byte, []byte, error)
+	ReadResultJSONWriteResultTL1(jctx *basictl.JSONReadContext, r []byte, w []byte) ([]byte, []byte, error)
+}
+
+func verifH_C07(d *verifDesc) {
+	if d.typedTL1toTL1 == nil {
+		return
+	}
+	q := d.anyObj(verifParam("D", 1)) // the request: its # fields shape the result type
+	b := verifBytes(verifParam("resN", 12))
+	rest, w1, err := d.typedTL1toTL1(q, b)
+	if err != nil {
+		verifCover("result-rejected")
+		if t, ok := q.(verifTransTL2); ok && d.typedTL1toTL2 != nil {
+			_, _, e2 := t.ReadResultTL1WriteResultTL2(nil, b, nil)
+			verifAssert(e2 != nil, "transcoder-rejects-what-the-typed-decoder-rejects")
+		}
+		return
+	}
+	verifCover("result-accepted")
+	n := len(b) - len(rest)
+	if !d.hasMap {
+		verifAssert(verifBytesEq(w1, b[:n]), "typed-result-rewrites-identically")
+	}
+	if t, ok := q.(verifTransTL2); ok && d.typedTL1toTL2 != nil {
+		r2, t2, e2 := t.ReadResultTL1WriteResultTL2(nil, b, nil)
+		verifAssert(e2 == nil && len(r2) == len(rest), "tl1-to-tl2-transcoder-accepts")
+		_, want, _ := d.typedTL1toTL2(q, b)
+		if e2 == nil {
+			verifAssert(verifBytesEq(t2, want), "tl1-to-tl2-transcoder-agrees-with-typed-path")
+			r3, back, e3 := t.ReadResultTL2WriteResultTL1(nil, t2, nil)
+			verifAssert(e3 == nil && len(r3) == 0, "tl2-to-tl1-transcoder-accepts")
+			if e3 == nil {
+				verifAssert(verifBytesEq(back, w1), "tl1-tl2-tl1-reproduces-the-result")
+				_, want1, e4 := d.typedTL2toTL1(q, t2)
+				verifAssert(e4 == nil && verifBytesEq(back, want1), "tl2-to-tl1-transcoder-agrees-with-typed-path")
+			}
+		}
+	}
+	if t, ok := q.(verifTransJSON); ok && verifParam("json", 1) != 0 {
+		rj, j, ej := t.ReadResultTL1WriteResultJSON(&basictl.JSONWriteContext{}, b, nil)
+		verifAssert(ej == nil && len(rj) == len(rest), "tl1-to-json-transcoder-accepts")
+		if ej == nil {
+			_, wantj, _ := d.typedTL1toJSON(q, b)
+			verifAssert(verifBytesEq(j, wantj), "tl1-to-json-transcoder-agrees-with-typed-path")
+			verifAssert(verifValidJSON(j), "result-json-is-valid")
+			_, back, eb := t.ReadResultJSONWriteResultTL1(&basictl.JSONReadContext{}, j, nil)
+			verifAssert(eb == nil, "json-to-tl1-transcoder-accepts")
+			if eb == nil {
+				verifAssert(verifBytesEq(back, w1), "tl1-json-tl1-reproduces-the-result")
+			}
+		}
+	}
+}
+
+
+// ---- C06: alternative forms and rejections (generic part) ----
+
+func verifScanJSON(j []byte) *verifJP {
+	p := &verifJP{b: j}
+	p.ws()
+	if p.i < len(j) && j[p.i] == '{' {
+		// record the first member span of the top-level object
+		q := &verifJP{b: j, i: p.i + 1}
+		q.ws()
+		p.top = q.i
+		if q.i < len(j) && j[q.i] == '"' {
+			st := q.i
+			if q.str() {
+				q.ws()
+				if q.i < len(j) && j[q.i] == ':' {
+					q.i++
+					if q.value(1) {
+						p.mem1 = [2]int{st, q.i}
+					}
+				}
+			}
+		}
+	}
+	p.value(0)
+	return p
+}
+
+func verifH_C06(d *verifDesc) {
+	x := d.anyObjJ(verifParam("D", 1))
+	if d.hasRepair {
+		d.repair(x)
+	}
+	v := x.(verifJSON)
+	j, err := verifWriteJSON(v)
+	if err != nil {
+		return
+	}
+	sc := verifScanJSON(j)
+	var want []byte
+	if d.hasTL2 {
+		want = x.(verifTL2).WriteTL2(nil, nil)
+	} else {
+		want, _ = x.(verifTL1).WriteTL1General(nil)
+	}
+	same := func(o interface{}) bool {
+		if d.hasTL2 {
+			return verifBytesEq(o.(verifTL2).WriteTL2(nil, nil), want)
+		}
+		w, _ := o.(verifTL1).WriteTL1General(nil)
+		return verifBytesEq(w, want)
+	}
+	switch verifChoice(3) {
+	case 0: // every number written as a decimal string
+		if len(sc.nums) == 0 {
+			return
+		}
+		verifCover("numbers-as-strings")
+		var alt []byte
+		prev := 0
+		for _, sp := range sc.nums {
+			alt = append(alt, j[prev:sp[0]]...)
+			alt = append(alt, '"')
+			alt = append(alt, j[sp[0]:sp[1]]...)
+			alt = append(alt, '"')
+			prev = sp[1]
+		}
+		alt = append(alt, j[prev:]...)
+		o := d.newObj()
+		err := verifReadJSON(o.(verifJSON), alt)
+		verifAssert(err == nil, "numbers-as-decimal-strings-accepted")
+		if err == nil {
+			verifAssert(same(o), "numbers-as-decimal-strings-same-value")
+		}
+	case 1: // unknown key
+		if sc.top == 0 {
+			return
+		}
+		verifCover("unknown-key")
+		alt := append([]byte(nil), j[:sc.top]...)
+		alt = append(alt, `"zz_unknown_key":1`...)
+		if sc.mem1[1] > 0 {
+			alt = append(alt, ',')
+		}
+		alt = append(alt, j[sc.top:]...)
+		o := d.newObj()
+		verifAssert(verifReadJSON(o.(verifJSON), alt) != nil, "unknown-key-rejected")
+	case 2: // duplicate key
+		if sc.mem1[1] == 0 {
+			return
+		}
+		verifCover("duplicate-key")
+		alt := append([]byte(nil), j[:sc.mem1[1]]...)
+		alt = append(alt, ',')
+		alt = append(alt, j[sc.mem1[0]:sc.mem1[1]]...)
+		alt = append(alt, j[sc.mem1[1]:]...)
+		o := d.newObj()
+		verifAssert(verifReadJSON(o.(verifJSON), alt) != nil, "duplicate-key-rejected")
 	}
 }
